@@ -407,13 +407,13 @@ def _mk_obj(cls_k, unicode_mode, before_k, has_pty, closed, cmd_none):
 
 
 @obligation(params=dict(cls_k=Int(0, 2), unicode_mode=Bool(), before_k=Int(0, 2), has_pty=Bool(), closed=Bool(),
-                        cmd_none=Bool(), which=Int(0, 1), listed=Bool(), regex=Bool(), witherr=Bool()),
+                        cmd_none=Bool(), which=Int(0, 1), listed=Bool(), regex=Bool(), witherr=Bool(), empty=Bool()),
             tags={2: 'EOF raised with message', 3: 'TIMEOUT raised with message', 4: 'index returned',
                   5: 'raised, regex searcher message'}, timeout=200,
             note='diagnostic message: in every object state (before login, no ptyproc, closed, before None/empty/'
                  'text, bytes/unicode, either searcher) eof()/timeout() raise exactly EOF/TIMEOUT - str(spawn) and '
                  'str(searcher) never fail.  Concrete text, symbolic structure.')
-def O3_message(cls_k, unicode_mode, before_k, has_pty, closed, cmd_none, which, listed, regex, witherr):
+def O3_message(cls_k, unicode_mode, before_k, has_pty, closed, cmd_none, which, listed, regex, witherr, empty=False):
     sp = _mk_obj(cls_k, unicode_mode, before_k, has_pty, closed, cmd_none)
     pat = 'x.y' if unicode_mode else b'x.y'
     if regex:
@@ -423,6 +423,11 @@ def O3_message(cls_k, unicode_mode, before_k, has_pty, closed, cmd_none, which, 
     else:
         lst = [pat, EOF, TIMEOUT] if listed else [pat]
         sr = searcher_string(lst)
+    if empty:
+        # an empty pattern list (expect(None) / expect([]) / expect_exact([]): just wait for EOF or TIMEOUT)
+        if listed:
+            return SKIP
+        sr = searcher_re([]) if regex else searcher_string([])
     ex = Expecter(sp, sr, -1)
     cls = EOF if which == 0 else TIMEOUT
     err = cls('inner') if witherr else None
@@ -453,6 +458,9 @@ def dry_runs():
                              listed=False, regex=False, witherr=True)
     yield 'O3_message', dict(cls_k=1, unicode_mode=False, before_k=0, has_pty=False, closed=True, cmd_none=True, which=1,
                              listed=False, regex=True, witherr=False)
+    for regex in (False, True):
+        yield 'O3_message', dict(cls_k=0, unicode_mode=True, before_k=1, has_pty=True, closed=False, cmd_none=False, which=0,
+                                 listed=False, regex=regex, witherr=False, empty=True)
     for how in range(3):
         yield 'O2_read_at_eof', dict(S='a\r\nb', c=2, how=how, size=2)
 
